@@ -20,6 +20,9 @@ type gor struct {
 	state int // 0 runnable, 1 parked, 2 done
 	ready func() bool
 	what  string
+	// set while the goroutine is inside verifYield / verifSettle
+	yielding bool
+	yieldSeq int
 }
 
 type pathAbort struct{}
@@ -32,6 +35,7 @@ type sched struct {
 	// outcome of a child goroutine that ends the whole path
 	childEnd interface{}
 	doneSig  chan struct{}
+	yieldSeq int
 }
 
 func (i *interpreter) initSched() {
